@@ -4,6 +4,7 @@ import (
 	"crypto/elliptic"
 	"encoding/base64"
 	"encoding/binary"
+	"encoding/hex"
 	"encoding/json"
 	"fmt"
 	"math"
@@ -115,21 +116,7 @@ func coqAssoc(m map[string]interface{}) (string, bool) {
 }
 
 func coqBytes(b []byte) string {
-	var sb strings.Builder
-
-	sb.WriteByte('[')
-
-	for i, x := range b {
-		if i > 0 {
-			sb.WriteString("; ")
-		}
-
-		fmt.Fprintf(&sb, "%d", x)
-	}
-
-	sb.WriteByte(']')
-
-	return sb.String()
+	return "(unhex \"" + hex.EncodeToString(b) + "\")"
 }
 
 func coqBool(b bool) string {
@@ -403,8 +390,9 @@ func e6View(in []byte, full bool) (string, bool) {
 	msid := ""
 	z := false
 
-	if strings.HasPrefix(s, "did:key:") {
-		msid = s[len("did:key:"):]
+	// fingerprint.getMethodSpecificID: the third ':' separated part, whatever the first two are
+	if parts := strings.SplitN(s, ":", 3); len(parts) == 3 { //nolint:gomnd
+		msid = parts[2]
 		z = len(msid) >= 2 && msid[0] == 'z'
 	}
 
@@ -521,17 +509,17 @@ func (r *runner) stride(gen string) int {
 
 	switch {
 	case gen == "closure":
-		st = 13
+		st = 17
 	case gen == "trunc":
-		st = 5
-	case gen == "text":
-		st = 11
-	case gen == "didkey-bytes":
 		st = 9
+	case gen == "text":
+		st = 23
+	case gen == "didkey-bytes":
+		st = 25
 	case gen == "bytes":
-		st = 7
+		st = 29
 	case strings.HasPrefix(gen, "lenfield"):
-		st = 2
+		st = 9
 	}
 
 	if r.tier == "thorough" {
